@@ -12,20 +12,20 @@ from . import strategies as S
 from .runner import pickle_b64
 
 
-def codec_cfg(tier: str) -> S.SchemaCfg:
+def codec_cfg(tier: str, dup_ids: bool = True) -> S.SchemaCfg:
     return S.SchemaCfg(
         types=S.TypeCfg(depth=3 if tier == "quick" else 5),
         max_enums=3,
         max_structs=4 if tier == "quick" else 6,
         max_fields=6,
         enum_max_bits=63,
-        dup_ids=True,
+        dup_ids=dup_ids,
     )
 
 
 @st.composite
-def codec_case(draw, tier: str, n_values: int, vcfg: S.ValCfg = None):
-    s = draw(S.data_schema(codec_cfg(tier)))
+def codec_case(draw, tier: str, n_values: int, vcfg: S.ValCfg = None, dup_ids: bool = True):
+    s = draw(S.data_schema(codec_cfg(tier, dup_ids)))
     # prefer later structs (they nest earlier ones)
     names = [x.name for x in s.structs]
     name = draw(st.sampled_from(names + names[-1:] * 2))
